@@ -129,6 +129,50 @@ Theorem C17_monitor_sound :
 Proof. exact monitor_sound. Qed.
 Print Assumptions C17_monitor_sound.
 
+(** The conjunction law as an equation on the success FLAG (messages play no role). *)
+Theorem C17_probe_conj_flag :
+  forall cel_compile cel_eval (qs : list osp) (p : prober) (o : json),
+    parse cel_compile cel_eval qs = inr p ->
+    fst (p o) = forallb (fun q => implb (selects q o) (passes_one cel_eval q o)) qs.
+Proof. exact probe_conj_b. Qed.
+Print Assumptions C17_probe_conj_flag.
+
+(** The phase reconciler (recordingProbe): an object of the phase that was found is recorded in
+    the ProbingResult iff some ObjectSetProbe selects it and does not pass; an object that was
+    not found is always recorded. One record per failing object, whatever its messages are. *)
+Theorem C17_recorded_iff_fails :
+  forall cel_compile cel_eval (qs : list osp) (p : prober) (objs : list (option json)),
+    parse cel_compile cel_eval qs = inr p ->
+    record_phase p objs = map (expected_record cel_eval qs) objs.
+Proof. exact recorded_iff_fails. Qed.
+Print Assumptions C17_recorded_iff_fails.
+
+(** The ProbingResult is zero (the ObjectSet is reported Available) iff every object of the
+    phase was found and passes the prober. *)
+Theorem C17_result_zero_iff :
+  forall cel_compile cel_eval (qs : list osp) (p : prober) (objs : list (option json)),
+    parse cel_compile cel_eval qs = inr p ->
+    (result_is_zero (record_phase p objs) = true <->
+     forall x, In x objs -> exists o, x = Some o /\ fst (p o) = true).
+Proof. exact result_zero_iff. Qed.
+Print Assumptions C17_result_zero_iff.
+
+(** Purity across calls: in any history of passes (of any ObjectSets, also of earlier ObjectSets
+    of the same name) the verdict of a pass is [verdict] of its own probe list and objects;
+    what came before or comes after does not matter. *)
+Theorem C17_history_independent :
+  forall cel_compile cel_eval (pre : list (list osp * list (option json))) call post,
+    nth_error (run_history cel_compile cel_eval (pre ++ call :: post)) (List.length pre)
+    = Some (verdict cel_compile cel_eval call).
+Proof. exact history_independent. Qed.
+Print Assumptions C17_history_independent.
+
+(** The monitor of the phase / history stages accepts every pass of the model. *)
+Theorem C17_monitor_pass_sound :
+  forall qs objs c, model_pass qs objs = Some c -> monitor_pass c = true.
+Proof. exact monitor_pass_sound. Qed.
+Print Assumptions C17_monitor_pass_sound.
+
 (** Non-vacuity: the hypotheses of the implications above are satisfiable, with a prober that
     really comes out of [parse] (witnesses in C17Corr.v). *)
 Example C17_ex_selected_stale :
@@ -180,3 +224,12 @@ Example C17_ex_dup_witness_now_fails :
             /\ p dup_witness_object = (false, [RCondOutdated]).
 Proof. exact dup_witness_now_fails. Qed.
 Print Assumptions C17_ex_dup_witness_now_fails.
+
+(** The pass monitor is not trivially true: a pass that reports a zero result (Available) although
+    the only object fails a probe that selects it is rejected (the symptom of a lost failure whose
+    message is empty, and of a prober cached from an earlier ObjectSet of the same name). *)
+Example C17_ex_monitor_pass_rejects :
+  model_pass ex_probes [(Some (ex_object 2 1), ex_tbl)] = Some (ex_probes, [(Some (ex_object 2 1), ex_tbl, true)], 1%N, false)
+  /\ monitor_pass (ex_probes, [(Some (ex_object 2 1), ex_tbl, false)], 0%N, true) = false.
+Proof. exact ex_monitor_pass_rejects. Qed.
+Print Assumptions C17_ex_monitor_pass_rejects.
